@@ -373,11 +373,14 @@ def r_v06(ctx):
     ctx.check(good, rule, 'version-for-same-index', c.loc(), 'put(Key::version(i)) / get(Key::metadata(i)) on the same i', 'the version record is not written under the index whose metadata was probed')
     # dominated by is_some == true
     dom = False
+    dom_edge = []
     for s, x, e in paths.controlling_conds(f, c.bb):
         if e[0] == 'bool' and strip(e[1])[0] == 'call':
             n = strip(e[1])[1]
             if paths.mentions_call(e[1], g0.bb) and ((n.endswith('::is_some') and e[2]) or (n.endswith('::is_none') and not e[2])):
                 dom = paths.edge_dominates(f, s, x, c.bb)
+                if dom:
+                    dom_edge.append((s, x))
     if not dom:
         # `match get(..) { Ok(Some(_)) => put, Ok(None) => (), Err(e) => .. }` / `if let Some(_) = get(..)? { put }`: the Some
         # edge of the discriminant of the looked-up Option
@@ -400,6 +403,16 @@ def r_v06(ctx):
                 vals = [v for v in (0, 1) if v not in listed]
             if is_opt and vals == [1]:
                 dom = True
+                dom_edge.append((s, x))
+    if dom:
+        # ... and on *every* index that has metadata: from the "metadata present" edge every path to the next index (or to
+        # the successful end) writes the record -- no further condition (pending updates, metric name, ..) may skip it
+        guard_edges = dom_edge
+        hdrs = [h for h in f.dominators().get(c.bb, ()) if c.bb in paths.natural_loop(f, h)]
+        goals = [b for b, k, t in paths.ret_assigns(f) if k in ('ok', 'call', 'other')] + hdrs
+        every = bool(guard_edges) and all(paths.must_pass(f, x, goals, [c.bb]) for s, x in guard_edges[-1:])
+        ctx.check(every, rule, 'every-index-with-metadata', c.loc(), 'the record is written for every index whose metadata exists',
+                  'an index that has metadata can be skipped by the 0.5->0.6 upgrade (a further condition guards the version put): it gets no version record')
     ctx.check(dom, rule, 'only-indexes-with-metadata', c.loc(), 'guarded by metadata presence', 'the version record is written regardless of (or contrary to) the presence of metadata')
     # the probed / stamped index ranges over every u16
     from rules import every_u16
